@@ -1,10 +1,454 @@
 package main
 
 import (
+	"fmt"
 	"math/rand"
+
+	. "github.com/apmckinlay/gsuneido/core"
+	qry "github.com/apmckinlay/gsuneido/dbms/query"
 
 	"verifharness/vh"
 )
 
-func runC23(tr *vh.Trace, rnd *rand.Rand, nscen, nq int) {}
-func runC24(tr *vh.Trace, rnd *rand.Rand, nscen, nq int) {}
+// runC23: random Rewind / Get / Select / Lookup sequences on the optimised query, consistent
+// with the Require it was set up with (require.go: ReqNone: Get; ReqOrder/ReqGroup: Get and
+// Select; ReqUnique: Get and Lookup). Every call and result is logged.
+//
+// The forward sequence of the current selection is needed by the trace spec to follow a
+// random walk; the driver learns it from the full forward scan that ends each phase and
+// logs it as a Seq event BEFORE the events of the phase (a prophecy: the spec checks that it
+// is the selected set in a legal order, and that every Get of the phase - including that
+// final scan itself - agrees with it).
+func runC23(tr *vh.Trace, rnd *rand.Rand, nscen, nq int) {
+	if nq == 0 {
+		nq = 12
+	}
+	nschemas := 2
+	nview := 0
+	var nopen, nget, nsel, nlook, nskip, nerr int
+	uses := map[string]int{}
+	for s := 0; s < nscen; s++ {
+		if s > 0 {
+			tr.Reset()
+		}
+		sc := genScenario(rnd, 6)
+		tr.Emit(dbEvent(sc))
+		g := &Gen{rnd: rnd, sc: sc, nview: &nview}
+		var qs []*Q
+		musts := map[string][][]string{}
+		for i := 0; i < nq; i++ {
+			q := g.gen(1 + rnd.Intn(3))
+			if rnd.Intn(6) == 0 {
+				q = g.sortOf(q)
+			}
+			if q.size() > 12 {
+				i--
+				continue
+			}
+			qs = append(qs, q)
+		}
+		for c := 0; c < nschemas; c++ {
+			d := buildDB(rnd, sc, musts)
+			for _, q := range qs {
+				d.defineViews(q)
+				v := randVariant(rnd, q.Op == "sort")
+				if q.Op != "sort" && rnd.Intn(2) == 0 {
+					// favour explicit requirements: they allow Select and Lookup
+					v.kind = "req"
+					v.use = []string{"order", "group", "unique"}[rnd.Intn(3)]
+				}
+				cs := &cursorSession{tr: tr, rnd: rnd, d: d, q: q, v: v}
+				cs.run()
+				if cs.skipped {
+					nskip++
+					continue
+				}
+				nopen++
+				uses[cs.use]++
+				nget += cs.nget
+				nsel += cs.nsel
+				nlook += cs.nlook
+				if cs.failed {
+					nerr++
+				}
+			}
+			d.close()
+		}
+	}
+	vh.Summary("scenarios", nscen, "opens", nopen, "gets", nget, "selects", nsel, "lookups", nlook,
+		"skipped", nskip, "errors", nerr, "use_none", uses["none"], "use_order", uses["order"],
+		"use_group", uses["group"], "use_unique", uses["unique"], "use_sort", uses["sort"], "events", tr.N)
+}
+
+type cursorSession struct {
+	tr   *vh.Trace
+	rnd  *rand.Rand
+	d    *DB
+	q    *Q
+	v    variant
+	qq   qry.Query
+	hdr  *Header
+	st   *SuTran
+	use  string
+	cols []string // requirement columns
+
+	buf     []*vh.Ev
+	full    [][]Val // the full result (phase 0), for choosing selection values
+	skipped bool
+	failed  bool
+	nget    int
+	nsel    int
+	nlook   int
+}
+
+type selJSON struct {
+	C string `json:"c"`
+	V Val    `json:"v"`
+}
+
+func (cs *cursorSession) emit(e *vh.Ev) { cs.buf = append(cs.buf, e) }
+
+func (cs *cursorSession) flush(seq [][]Val) {
+	if seq != nil {
+		cs.tr.Emit(vh.E("Seq", "rows", seq))
+	}
+	for _, e := range cs.buf {
+		cs.tr.Emit(e)
+	}
+	cs.buf = nil
+}
+
+// guard runs f; a panic of the query layer becomes the error of event ev
+func (cs *cursorSession) guard(ev *vh.Ev, f func()) (ok bool) {
+	defer func() {
+		if e := recover(); e != nil {
+			cs.failed = true
+			cs.emit(ev.Add("err", fmt.Sprint(e)))
+			ok = false
+		}
+	}()
+	f()
+	return true
+}
+
+func (cs *cursorSession) run() {
+	setKnobs(cs.v)
+	defer resetKnobs()
+	var tran qry.QueryTran
+	if cs.v.mode == qry.UpdateMode {
+		ut := cs.d.db.NewUpdateTran()
+		defer ut.Abort()
+		tran = ut
+	} else {
+		tran = cs.d.db.NewReadTran()
+	}
+	text := cs.q.text()
+	open := vh.E("Open", "text", text, "views", viewDefs(cs.q), "ast", cs.q.json())
+	var req reqInfo
+	ok := func() (ok bool) {
+		defer func() {
+			if e := recover(); e != nil {
+				cs.failed = true
+				cs.tr.Emit(open.Add("use", "none").Add("ocols", []string{}).Add("rev", false).
+					Add("cols", []string{}).Add("keys", [][]string{}).Add("fixed", []any{}).
+					Add("err", fmt.Sprint(e)).Add("conf", cs.d.label+" | "+cs.v.String()).Add("plan", ""))
+				ok = false
+			}
+		}()
+		cs.qq, req, cs.skipped = cs.d.prepare(text, cs.v, tran, cs.rnd)
+		return true
+	}()
+	if !ok || cs.skipped {
+		return
+	}
+	cs.hdr = cs.qq.Header()
+	cs.st = qry.MakeSuTran(tran)
+	cs.use, cs.cols = req.use, req.cols
+	rev := false
+	if cs.q.Op == "sort" {
+		cs.use, cs.cols, rev = "sort", cs.q.Cols, cs.q.Rev
+	}
+	if cs.cols == nil {
+		cs.cols = []string{}
+	}
+	keys := cs.qq.Keys()
+	if keys == nil {
+		keys = [][]string{}
+	}
+	for i := range keys {
+		if keys[i] == nil {
+			keys[i] = []string{}
+		}
+	}
+	fixed := []any{}
+	fcols, fvals := qry.VerifFixed(cs.qq)
+	for i, c := range fcols {
+		vs := []Val{}
+		okv := true
+		for _, p := range fvals[i] {
+			v, ok := toVal(Unpack(p))
+			if !ok {
+				okv = false
+			}
+			vs = append(vs, v)
+		}
+		if okv {
+			fixed = append(fixed, vh.E("").Add("c", c).Add("vs", vs))
+		}
+	}
+	hcols := cs.hdr.Columns
+	if hcols == nil {
+		hcols = []string{}
+	}
+	cs.tr.Emit(open.Add("use", cs.use).Add("ocols", cs.cols).Add("rev", rev).Add("cols", hcols).
+		Add("keys", keys).Add("fixed", fixed).Add("err", "").
+		Add("conf", cs.d.label+" | "+cs.v.String()).Add("plan", qry.String(cs.qq)))
+
+	// phase 0: no selection
+	if !cs.phase(true) {
+		return
+	}
+	switch cs.use {
+	case "order", "group":
+		n := 1 + cs.rnd.Intn(3)
+		for i := 0; i < n; i++ {
+			clear := cs.rnd.Intn(5) == 0
+			// (Select gets exactly the requirement columns, as joins and the repository's fuzz test do)
+			sels := cs.randSels(false)
+			ev := vh.E("Select", "clear", clear, "sels", selsJSON(sels, clear))
+			cs.nsel++
+			if !cs.guard(ev, func() {
+				if clear {
+					cs.qq.Select(nil)
+				} else {
+					cs.qq.Select(cs.packSels(sels))
+				}
+			}) {
+				cs.flush(nil)
+				return
+			}
+			// Select events go out before the Seq of their phase
+			cs.tr.Emit(ev.Add("err", ""))
+			if !cs.phase(false) {
+				return
+			}
+		}
+	}
+}
+
+func selsJSON(sels []selJSON, clear bool) []selJSON {
+	if clear || sels == nil {
+		return []selJSON{}
+	}
+	return sels
+}
+
+func (cs *cursorSession) packSels(sels []selJSON) qry.Sels {
+	var r qry.Sels
+	for _, s := range sels {
+		r = append(r, qry.NewSel(s.C, Pack(gsValue(s.V).(Packable))))
+	}
+	return r
+}
+
+// randSels: values for all requirement columns (shuffled), taken from a row of the result or
+// replaced by other values (absent combinations), sometimes with extra columns
+func (cs *cursorSession) randSels(extra bool) []selJSON {
+	cols := shuffled(cs.rnd, cs.cols)
+	if extra && cs.rnd.Intn(4) == 0 {
+		for _, c := range shuffled(cs.rnd, cs.hdr.Columns) {
+			if !contains(cols, c) {
+				cols = append(cols, c)
+				break
+			}
+		}
+	}
+	var base []Val
+	if len(cs.full) > 0 {
+		base = cs.full[cs.rnd.Intn(len(cs.full))]
+	}
+	var sels []selJSON
+	for _, c := range cols {
+		var v Val
+		if base != nil {
+			for i, hc := range cs.hdr.Columns {
+				if hc == c {
+					v = base[i]
+				}
+			}
+		} else {
+			v = cs.anyVal()
+		}
+		sels = append(sels, selJSON{c, v})
+	}
+	if len(sels) > 0 && cs.rnd.Intn(3) == 0 {
+		// another value: from another row, or any value of the universe (possibly absent)
+		i := cs.rnd.Intn(len(sels))
+		if len(cs.full) > 0 && cs.rnd.Intn(2) == 0 {
+			r := cs.full[cs.rnd.Intn(len(cs.full))]
+			for j, hc := range cs.hdr.Columns {
+				if hc == sels[i].C {
+					sels[i].V = r[j]
+				}
+			}
+		} else {
+			sels[i].V = cs.anyVal()
+		}
+	}
+	return sels
+}
+
+func (cs *cursorSession) anyVal() Val {
+	all := []Val{vEmpty, vTrue, vNum(0), vNum(1), vNum(2), vNum(3), vNum(7), vStr(1 + cs.rnd.Intn(len(strs)-1))}
+	return all[cs.rnd.Intn(len(all))]
+}
+
+func (cs *cursorSession) get(dir Dir) (row []Val, has bool, ok bool) {
+	d := "next"
+	if dir == Prev {
+		d = "prev"
+	}
+	ev := vh.E("Get", "dir", d)
+	cs.nget++
+	ok = cs.guard(ev.Add("has", false).Add("row", []Val{}), func() {
+		r := cs.qq.Get(th, dir)
+		if r != nil {
+			vals, e := readRow(cs.qq, cs.hdr, r, cs.st)
+			if e != "" {
+				panic(e)
+			}
+			row, has = vals, true
+		}
+	})
+	if ok {
+		e2 := vh.E("Get", "dir", d, "has", has)
+		if has {
+			e2.Add("row", row)
+		} else {
+			e2.Add("row", []Val{})
+		}
+		cs.emit(e2.Add("err", ""))
+	}
+	return
+}
+
+// phase: a random walk, then a full forward scan (which also tells the sequence), then a
+// full backward scan
+func (cs *cursorSession) phase(first bool) bool {
+	nsteps := 2 + cs.rnd.Intn(10)
+	for i := 0; i < nsteps; i++ {
+		switch r := cs.rnd.Intn(20); {
+		case r < 9:
+			if _, _, ok := cs.get(Next); !ok {
+				cs.flush(nil)
+				return false
+			}
+		case r < 16:
+			if _, _, ok := cs.get(Prev); !ok {
+				cs.flush(nil)
+				return false
+			}
+		case r < 18 && cs.use == "unique" && len(cs.cols) > 0:
+			if !cs.lookup() {
+				cs.flush(nil)
+				return false
+			}
+		default:
+			cs.qq.Rewind()
+			cs.emit(vh.E("Rewind"))
+		}
+	}
+	scan := func(dir Dir) ([][]Val, bool) {
+		cs.qq.Rewind()
+		cs.emit(vh.E("Rewind"))
+		var rows [][]Val
+		for n := 0; ; n++ {
+			row, has, ok := cs.get(dir)
+			if !ok {
+				return nil, false
+			}
+			if !has {
+				break
+			}
+			rows = append(rows, row)
+			if n > 3000 {
+				cs.failed = true
+				cs.emit(vh.E("Get", "dir", "next", "has", true, "row", row, "err", "runaway: more rows than any possible result"))
+				return nil, false
+			}
+		}
+		// sticks at eof
+		if cs.rnd.Intn(2) == 0 {
+			if _, _, ok := cs.get(dir); !ok {
+				return nil, false
+			}
+		}
+		if cs.rnd.Intn(3) == 0 {
+			if _, _, ok := cs.get(dir.Reverse()); !ok {
+				return nil, false
+			}
+		}
+		return rows, true
+	}
+	fwd, ok := scan(Next)
+	if !ok {
+		cs.flush(nil)
+		return false
+	}
+	if fwd == nil {
+		fwd = [][]Val{}
+	}
+	if first {
+		cs.full = fwd
+	}
+	if _, ok := scan(Prev); !ok {
+		cs.flush(fwd)
+		return false
+	}
+	if cs.use == "unique" && len(cs.cols) > 0 {
+		// lookups of every row now that the result is known, and some absent ones
+		for i := 0; i < 2+cs.rnd.Intn(3); i++ {
+			if !cs.lookup() {
+				cs.flush(fwd)
+				return false
+			}
+			if cs.rnd.Intn(3) == 0 {
+				if _, _, ok := cs.get([]Dir{Next, Prev}[cs.rnd.Intn(2)]); !ok {
+					cs.flush(fwd)
+					return false
+				}
+			}
+		}
+	}
+	cs.flush(fwd)
+	return true
+}
+
+func (cs *cursorSession) lookup() bool {
+	sels := cs.randSels(true)
+	cs.nlook++
+	var row []Val
+	has := false
+	ev := vh.E("Lookup", "sels", selsJSON(sels, false))
+	ok := cs.guard(vh.E("Lookup", "sels", selsJSON(sels, false), "has", false, "row", []Val{}), func() {
+		r := cs.qq.Lookup(th, cs.packSels(sels))
+		if r != nil {
+			vals, e := readRow(cs.qq, cs.hdr, r, cs.st)
+			if e != "" {
+				panic(e)
+			}
+			row, has = vals, true
+		}
+	})
+	if !ok {
+		return false
+	}
+	if !has {
+		row = []Val{}
+	}
+	cs.emit(ev.Add("has", has).Add("row", row).Add("err", ""))
+	// the position after a Lookup is not part of the property: always Rewind before reading on
+	cs.qq.Rewind()
+	cs.emit(vh.E("Rewind"))
+	return true
+}
